@@ -230,14 +230,34 @@ pub(crate) fn resolve_scan_paths(paths: &[PathBuf], include: &[String]) -> Vec<P
     paths.iter().map(|p| canonical_target(p)).collect()
 }
 
+/// The working directory as the kernel reports it and, when the shell reached it through a
+/// symbolic link, as the shell spells it (`$PWD`): an absolute target typed or completed in such
+/// a shell starts with the latter.
+fn working_directory_spellings() -> Vec<PathBuf> {
+    let Ok(cwd) = std::env::current_dir() else {
+        return Vec::new();
+    };
+    let mut spellings = vec![cwd.clone()];
+    if let Some(logical) = std::env::var_os("PWD").map(PathBuf::from)
+        && logical.is_absolute()
+        && logical != cwd
+        && fs::canonicalize(&logical)
+            .ok()
+            .is_some_and(|l| fs::canonicalize(&cwd).ok() == Some(l))
+    {
+        spellings.push(logical);
+    }
+    spellings
+}
+
 /// Reduce a scan target or file argument to one spelling, so that verdicts do not depend on how it was typed:
 /// `./src`, `src/` and `<cwd>/src` become `src`; `./` and `<cwd>` become `.`.
 /// Targets outside the working directory are kept as given.
 pub(crate) fn canonical_target(path: &Path) -> PathBuf {
     let relative = if path.is_absolute() {
-        std::env::current_dir()
-            .ok()
-            .and_then(|cwd| path.strip_prefix(cwd).ok().map(Path::to_path_buf))
+        working_directory_spellings()
+            .iter()
+            .find_map(|cwd| path.strip_prefix(cwd).ok().map(Path::to_path_buf))
             .unwrap_or_else(|| path.to_path_buf())
     } else {
         path.to_path_buf()
